@@ -62,12 +62,16 @@ def run(ctx):
     lc = common.load_repo(ctx.repo)
     from .. import objmodel
     defaults = objmodel.Defaults(lc)
-    ctx.rule = ("(M) every sequence over {K,E,G,P,Y,L} up to MaxLen (and over {K,E,G} up to a longer bound) x every window 1..N: "
+    ctx.rule = ("(proof) TLAPS ProofsGeometry: FlanksAddUp, CodePlacementIsDocumented for all w <= N; (M) every sequence over {K,E,G,P,Y,L} up to MaxLen (and over {K,E,G} up to a longer bound) x every window 1..N: "
                 "FlanksAgree, CodeIsDoc, WholeWindow, DeltaFromProfiles; (G) every state x every window 1..N+3 replayed into "
                 "get_linear_NCPR/FCR/sigma/hydropathy and the default get_linear_sequence_composition, expected = TLC's exact "
                 "profiles, windows > N must raise; (V) random sequences up to 200 residues x random windows x random user group "
                 "lists (lower case, overlapping, invalid letters), some after a call history, judged by TLC. non-trivial = distinct "
                 "(sequence, window)")
+    # unbounded (TLAPS, ProofsGeometry): FlanksAddUp and CodePlacementIsDocumented (the implementation's flank arithmetic is the
+    # documented placement) for every 1 <= w <= N
+    from .. import tlaps
+    ctx.extra["tlaps_obligations_proved"] = tlaps.prove(ctx, "ProofsGeometry", ["Geometry"])
     res = mc(ctx, ["K", "E", "G", "P", "Y", "L"], ctx.pick(4, 5), True, "six")
     mc(ctx, ["K", "E", "G"], ctx.pick(7, 9), False, "charge")
     ctx.exhaustive = True
